@@ -169,6 +169,22 @@ CHECKS.update({
     ),
 })
 
+CHECKS.update({
+    "C18": (
+        "exploration",
+        "runtime monitor: delegating Math wrapper records every ESH / normalise / gaussian call of real MCLMC chains; closed-form and accounting oracles",
+        "Real MCLMC chains (three presets, dims 2..10, random step size, decoherence length, subsample frequency, trajectory kind, switch "
+        "fraction, dynamic step size, jitter, energy limit; iso / scaled / funnel targets; seeded recoverable faults at random evaluation "
+        "indices) run over a Math wrapper that records every call: each esh_momentum_update has unit-norm momentum on entry and exit and "
+        "equals the closed-form ESH update and kinetic energy change; array_normalize outputs have unit norm; non-divergent draws take "
+        "max(1, round(f L / eps)) steps for the step size in force (at least that many under dynamic retry); divergent draws leave the position "
+        "bit-identical and end with a freshly drawn (and normalised) momentum that is the state's momentum; the first ESH call happens exactly at "
+        "draw floor(fraction * num_tune) after a fresh gaussian + normalise, and never reverts.",
+        "The closed-form ESH reference is the formula documented on the Math trait, re-implemented in the harness.",
+        "DESIGN.md §3 C18",
+    ),
+})
+
 NOT_YET = {}
 
 
